@@ -30,7 +30,10 @@ LInit(hasintv, given, dflt, cb, now) ==
 
 Dead(L, t) == {k \in DOMAIN L.phys : L.phys[k] > 0 /\ t > L.phys[k]}
 
-Reap(L, ks) == [L EXCEPT !.phys = [k \in (DOMAIN L.phys) \ ks |-> L.phys[k]], !.pend = IF L.cb THEN @ \cup ks ELSE @]
+\* cb is the id of the evicted callback in force ("" = none); a pass reports to the callback in force when the pass runs
+Reap(L, ks) == [L EXCEPT !.phys = [k \in (DOMAIN L.phys) \ ks |-> L.phys[k]],
+                         !.pend = IF L.cb # "" THEN @ \cup {[k |-> k, cb |-> L.cb] : k \in ks} ELSE @]
+LSetCb(L, id) == [L EXCEPT !.cb = id]
 
 LSet(L, k, d) == [L EXCEPT !.phys = [x \in (DOMAIN L.phys) \cup {k} |-> IF x = k THEN (IF d > 0 THEN L.now + d ELSE 0) ELSE L.phys[x]]]
 
@@ -49,7 +52,7 @@ LDeleteExpired(L) == Reap(L, Dead(L, L.now))
 \* an observation: Count and the keys reported to the callback since the last one
 ObserveOK(L, count, evs) ==
   /\ count = Cardinality(DOMAIN L.phys)
-  /\ {evs[i].k : i \in DOMAIN evs} = L.pend
+  /\ {[k |-> evs[i].k, cb |-> evs[i].cb] : i \in DOMAIN evs} = L.pend
   /\ Len(evs) = Cardinality(L.pend)
 LObserved(L) == [L EXCEPT !.pend = {}]
 =============================================================================
